@@ -44,14 +44,31 @@ func Announcements(res *pp.Res) string {
 	return strings.Join(out, "\n")
 }
 
+var redirRe = regexp.MustCompile(`>\s*([A-Za-z0-9_]+)\s*$`)
+
 // Run executes the reset block followed by lines in one interactive session on p.
-func Run(p *profile.Profile, lines []string) Out {
+func Run(p *profile.Profile, lines []string) Out { return RunOpts(p, lines, false) }
+
+// RunOpts is Run; with realFiles pprof writes the redirected output itself, as files in the working
+// directory (its default writer), instead of handing it to the harness's in-memory writer.
+func RunOpts(p *profile.Profile, lines []string, realFiles bool) Out {
 	all := append(append([]string{}, ResetBlock...), lines...)
 	wr := &pp.Writer{Fail: map[string]error{}}
 	for i := 0; i < 40; i++ {
 		wr.Fail[fmt.Sprintf("fail%d", i)] = fmt.Errorf("scripted: cannot create file")
 	}
-	res := pp.Run(pp.Req{Args: []string{"src"}, Sources: map[string]*pp.Source{"src": {Prof: p}}, Lines: all, Writer: wr})
+	var names []string
+	if realFiles {
+		seen := map[string]bool{}
+		for _, l := range lines {
+			if m := redirRe.FindStringSubmatch(l); m != nil && !seen[m[1]] {
+				seen[m[1]] = true
+				names = append(names, m[1])
+				os.Remove(m[1])
+			}
+		}
+	}
+	res := pp.Run(pp.Req{Args: []string{"src"}, Sources: map[string]*pp.Source{"src": {Prof: p}}, Lines: all, Writer: wr, OSWriter: realFiles})
 	// un-redirected binary reports are saved as numbered temporary files (profile001... in the working directory, at most 9999 of them)
 	wd, _ := os.Getwd()
 	for _, d := range []string{os.Getenv("PPROF_TMPDIR"), wd} {
@@ -73,6 +90,12 @@ func Run(p *profile.Profile, lines []string) Out {
 	for _, n := range res.W.Order {
 		b, _ := res.W.Get(n)
 		out.Files[n] = string(b)
+	}
+	for _, n := range names {
+		if b, err := os.ReadFile(n); err == nil {
+			out.Files[n] = string(b)
+		}
+		os.Remove(n)
 	}
 	return out
 }
